@@ -240,3 +240,57 @@ def long_texts(ctx):
         out.append(('x eq "%s\u00e9" or x eq 1 trailing' % s[:-1], o, 'long-text'))
         out.append(('x eq "%s" or x eq 1 \x00' % s, o, 'long-text'))
     return out
+
+def long_strings(ctx):
+    """string attributes / literals of 15..1025 bytes differing at the first, a middle (32nd, 64th ...) or the last position, in case only, or not at all"""
+    out = []
+    ops = ['eq', 'ne', 'lt', 'gt', 'le', 'ge', 'co', 'sw', 'ew']
+    for n in _sizes(ctx, [15, 16, 17, 31, 32, 33, 63, 64, 65, 127, 129, 255, 257], [1025, 4097]):
+        base = ''.join('abcdefghij'[i % 10] for i in range(n))
+        variants = {'same': base, 'upper': base.upper(), 'last': base[:-1] + 'z', 'first': 'z' + base[1:], 'mid': base[:n // 2] + 'Z' + base[n // 2 + 1:],
+                    'p32': base[:31] + 'Q' + base[32:] if n > 32 else base, 'p64': base[:63] + 'Q' + base[64:] if n > 64 else base,
+                    'shorter': base[:-1], 'longer': base + 'a', 'casemid': base[:n // 2] + base[n // 2].upper() + base[n // 2 + 1:],
+                    'kelvin': base[:n // 2] + 'K' + base[n // 2 + 1:], 'k': base[:n // 2] + 'k' + base[n // 2 + 1:],
+                    'inner': 'xx' + base + 'yy', 'tail': base[n // 2:], 'head': base[:n // 2]}
+        for name, a in variants.items():
+            for op in (ops if name in ('same', 'upper', 'last', 'mid', 'kelvin', 'inner', 'tail', 'head') or not ctx.quick else ['eq', 'lt', 'co']):
+                out.append(('x %s "%s"' % (op, base), obj({'x': S(a)}), 'long-string'))
+                if name in ('tail', 'head', 'inner', 'kelvin', 'upper'):
+                    out.append(('x %s "%s"' % (op, a), obj({'x': S(base)}), 'long-string'))
+        out.append(('x in ["%s", "%s"]' % (variants['last'], base.upper()), obj({'x': S(base)}), 'long-string'))
+        out.append(('x eq "%s"' % base, obj({'x': ('str', base.upper().encode())}), 'long-string'))
+    return out
+
+def big_versions(ctx):
+    """versions with many-digit components, long pre-release chains and long build metadata"""
+    out = []
+    ops = ['eq', 'ne', 'lt', 'gt', 'le', 'ge']
+    nums = ['0', '9', '10', '4294967295', '4294967296', '9223372036854775807', '9223372036854775808', '18446744073709551615']
+    for a in nums:
+        for b in nums:
+            for op in (ops if not ctx.quick else ['eq', 'lt', 'ge']):
+                out.append(('x %s 1.%s.0' % (op, b), obj({'x': S('1.%s.0' % a)}), 'big-version'))
+                out.append(('x %s %s.0.0' % (op, b), obj({'x': S('%s.0.0-rc.1' % a)}), 'big-version'))
+    for k in _sizes(ctx, [1, 2, 7, 8, 9, 16, 17, 33], [200]):
+        pre = '.'.join(str(i) for i in range(k))
+        pre2 = '.'.join(str(i) for i in range(k - 1)) + ('.' if k > 1 else '') + str(k)          # differs in the last identifier
+        pre3 = '.'.join(str(i) for i in range(k)) + '.0'                                         # one identifier more
+        alpha = '.'.join('a%d' % i for i in range(k))
+        for attr in ['1.0.0-' + pre, '1.0.0-' + pre2, '1.0.0-' + pre3, '1.0.0-' + alpha, '1.0.0', '1.0.0-' + pre + '+' + 'b' * (k * 8), '1.0.0+' + '.'.join('m%d' % i for i in range(k)),
+                     '1.0.0-' + '9' * (k + 1), '1.0.0-' + 'a' * (k * 8)]:
+            for op in ops:
+                out.append(('x %s 1.0.0' % op, obj({'x': S(attr)}), 'big-version'))
+            out.append(('x eq 1.0.1 or x gt 1.0.0 or x lt 1.0.0', obj({'x': S(attr)}), 'big-version'))
+    return out
+
+def long_tokens(ctx):
+    """texts whose single tokens are long: names, integers, decimals, versions, strings, blanks"""
+    out = []
+    for n in _sizes(ctx, [15, 16, 17, 31, 32, 33, 63, 64, 65, 255, 256, 257, 1023, 1025], [4097, 70000]):
+        name = ('a-b_c:d9' * (n // 8 + 1))[:n]
+        digits = ('1234567890' * (n // 10 + 1))[:n]
+        out += ['%s eq 1' % name, '%s.%s pr' % (name, name), 'x eq %s' % digits, 'x eq -%s' % digits, 'x eq %s.5' % digits, 'x eq 0.%s' % digits, 'x eq 1.%se+5' % digits,
+                'x eq %s.1.2' % digits, 'x eq 1.2.%s' % digits, 'x eq "%s"' % name, 'x eq "%s' % name, 'x in [%s]' % ', '.join(['1'] * n), 'x in [%s]' % ','.join(['"a"'] * n),
+                'x eq 1 %sand y eq 2' % ('\n' * n), 'x in [1,%s2]' % (' ' * n), 'x eq 0%s' % digits, 'x eq %s.' % digits, '%s' % name, '%s.' % name, '.%s pr' % name,
+                'x eq 1.0e%s' % digits[:min(n, 400)], 'x%seq 1' % (' ' * min(n, 40)), '%s x eq 1' % ('(' * n), 'x eq 1 %s' % (')' * n)]
+    return out
